@@ -169,7 +169,7 @@ abbrev StrMap := List (Bytes × Bytes)
 def reqPacketName : String := "requestf.RequestPacket"
 def rspPacketName : String := "requestf.ResponsePacket"
 
-def mapStrStr : Ty := .map .str .str
+abbrev mapStrStr : Ty := .map .str .str
 
 /-- members of `RequestPacket`: tags and require flags regenerated from the struct tags, types from
     the Go struct, explicit defaults = what `ResetDefault` assigns -/
@@ -296,13 +296,16 @@ inductive Recv where
   | error               -- `PackageError` (or a slice panic): the connection is closed
 deriving Repr, DecidableEq
 
-def recvFirst (maxLen : Int) (stream : Bytes) : Recv :=
-  match Frame.tarsRequest maxLen stream with
+/-- the receive loop's reaction to the `(pkgLen, status)` answer of `ParsePackage` -/
+def recvOf (stream : Bytes) : Frame.Parse → Recv
   | .ret n st =>
     if st = transportPackageFull then .pkg (stream.take n)
     else if st = transportPackageLess then .less
     else .error
   | .panic => .error
+
+def recvFirst (maxLen : Int) (stream : Bytes) : Recv :=
+  recvOf stream (Frame.tarsRequest maxLen stream)
 
 /-! ## Events, implementation, results -/
 
@@ -368,29 +371,40 @@ def SrvErr.toGo : SrvErr → GoErr
   | .notModelled => .plain []
   | .panic _ => .plain []
 
+/-- the response packet the generated `Dispatch` builds after the implementation returned nil
+    (TARS version): return value at tag 0 and out parameters at their tags in `SBuffer`, the
+    response status / context the implementation set, everything else from the request or literal -/
+def dispatchRsp (env : Env) (req : ReqPacket) (sig : Sig) (out : ImplOut) : RspPacket :=
+  { iVersion := req.iVersion, cPacketType := cpDispatchPacketType,
+    iRequestId := req.iRequestId, iMessageType := cpDispatchMessageType,
+    iRet := cpDispatchRet,
+    sBuffer := encMembers env (rspFields sig) (out.ret.toList ++ out.outs),
+    status := out.rspStatus.getD [], sResultDesc := [], context := out.rspCtx.getD [] }
+
+/-- genSwitchCase, reading the in parameters: `if inArgsCount > 0 { if tarsReq.IVersion ==
+    basef.TARSVERSION { … } else if … }` into zero-valued variables -/
+def dispatchArgs (env : Env) (req : ReqPacket) (sig : Sig) : Except SrvErr (List Val) :=
+  let ins := inFields sig
+  let olds := ins.map fun fl => zeroOf env fl.ty
+  if ins.isEmpty then .ok []
+  else if req.iVersion = cpTARSVERSION then
+    let r := Reader.mk0 req.sBuffer
+    match (decMembers env (argFuel env r) ins olds r).1 with
+    | .ok vs => .ok vs
+    | .error (.panic site) => .error (.panic site)
+    | .error e => .error (.decode e)
+  else if req.iVersion = cpTUPVERSION ∨ req.iVersion = cpJSONVERSION then .error .notModelled
+  else .error (.version req.iVersion)
+
 /-- the generated `Dispatch` (genIFDispatch + genSwitchCase) as a computation over `*tarsResp`:
-    look the function up, read the in parameters (TARS version) into zero-valued variables, call the
-    implementation, and — only if it returned nil — write return value and out parameters and
-    build the response packet. -/
+    look the function up, read the in parameters, call the implementation, and — only if it
+    returned nil — write return value and out parameters and build the response packet. -/
 def dispatch (env : Env) (iface : Iface) (req : ReqPacket) : Comp Ev RspPacket (Option SrvErr) :=
   fun rsp =>
   match iface.find req.sFuncName with
   | none => ([], some .funcMismatch, rsp)
   | some f =>
-    let ins := inFields f.sig
-    let olds := ins.map fun fl => zeroOf env fl.ty
-    -- `if inArgsCount > 0 { if tarsReq.IVersion == basef.TARSVERSION {…} else if … }`
-    let decoded : Except SrvErr (List Val) :=
-      if ins.isEmpty then .ok []
-      else if req.iVersion = cpTARSVERSION then
-        let r := Reader.mk0 req.sBuffer
-        match decMembers env (argFuel env r) ins olds r with
-        | (.ok vs, _) => .ok vs
-        | (.error (.panic site), _) => .error (.panic site)
-        | (.error e, _) => .error (.decode e)
-      else if req.iVersion = cpTUPVERSION ∨ req.iVersion = cpJSONVERSION then .error .notModelled
-      else .error (.version req.iVersion)
-    match decoded with
+    match dispatchArgs env req f.sig with
     | .error e => ([], some e, rsp)
     | .ok vs =>
       let out := f.impl vs req.context req.status
@@ -398,13 +412,7 @@ def dispatch (env : Env) (iface : Iface) (req : ReqPacket) : Comp Ev RspPacket (
       match out.err with
       | some e => (ev, some (.impl e), rsp)
       | none =>
-        if req.iVersion = cpTARSVERSION then
-          let buf := encMembers env (rspFields f.sig) (out.ret.toList ++ out.outs)
-          (ev, none,
-            { iVersion := req.iVersion, cPacketType := cpDispatchPacketType,
-              iRequestId := req.iRequestId, iMessageType := cpDispatchMessageType,
-              iRet := cpDispatchRet, sBuffer := buf, status := out.rspStatus.getD [],
-              sResultDesc := [], context := out.rspCtx.getD [] })
+        if req.iVersion = cpTARSVERSION then (ev, none, dispatchRsp env req f.sig out)
         else (ev, some .notModelled, rsp)
 
 /-- registrations of filters on either side -/
@@ -432,44 +440,48 @@ inductive ServerRes where
   | notModelled (what : String)
 deriving Repr, Inhabited
 
-/-- `tcpHandler.handleConn` → `TarsServer.invoke` → `Protocol.Invoke` for a servant registered with
-    context (`AddServantWithContext`), no deadline firing, then the one-way test and the write. -/
+/-- `Protocol.Invoke` after the request packet has been read (servant registered with context, no
+    deadline firing), `rsp2Byte`, then `handleConn`'s one-way test and the write -/
+def serverCore (vs : Variants) (env : Env) (sreg : ServerReg) (iface : Iface) (req : ReqPacket) :
+    List Ev × ServerRes :=
+  -- `rspPackage.IVersion = reqPackage.IVersion; rspPackage.IRequestId = reqPackage.IRequestId`
+  let rsp0 : RspPacket := { RspPacket.zero with iVersion := req.iVersion, iRequestId := req.iRequestId }
+  let (tr, err, rsp1) :=
+    if req.sFuncName ≠ ascii "tars_ping" then
+      runServer vs.postFilter none sreg (dispatch env iface req) rsp0
+    else ([], none, rsp0)
+  match err with
+  | some (.panic site) => (tr, .panicked site)
+  | some .notModelled => (tr, .notModelled "TUP / JSON request")
+  | _ =>
+    let rsp2 : RspPacket :=
+      match err with
+      | some e =>
+        let (iret, desc) := serverErr vs.zeroCode e.toGo
+        { rsp1 with iRet := iret, sResultDesc := desc }
+      | none => rsp1
+    -- `rspPackage.CPacketType = reqPackage.CPacketType`
+    let rsp3 := { rsp2 with cPacketType := req.cPacketType }
+    if rsp3.iVersion = (cpTUPVERSION : Int) then (tr, .notModelled "TUP response")
+    else
+      let frame := rsp2Byte rsp3
+      -- handleConn: `if cPacketType == basef.TARSONEWAY { return }`
+      if rsp3.cPacketType = (cpTARSONEWAY : Int) then (tr, .silent)
+      else (tr ++ [Ev.reply frame], .reply frame)
+
+/-- `tcpHandler.handleConn` → `TarsServer.invoke` → `Protocol.Invoke` on one package:
+    `is := codec.NewReader(req[4:]); reqPackage.ReadFrom(is)`, then `serverCore` -/
 def serverHandle (vs : Variants) (env : Env) (sreg : ServerReg) (iface : Iface) (pkg : Bytes) :
     List Ev × ServerRes :=
-  -- `is := codec.NewReader(req[4:])`
   if pkg.length < cpInvokeHeaderSkip then ([], .panicked "slice bounds")
   else
     let r := Reader.mk0 (pkg.drop cpInvokeHeaderSkip)
-    match decStruct packetEnv reqPacketName (freshStruct packetEnv reqPacketName) r with
-    | (.error _, _) => ([], .notModelled "request packet does not decode")
-    | (.ok v, _) =>
+    match (decStruct packetEnv reqPacketName (freshStruct packetEnv reqPacketName) r).1 with
+    | .error _ => ([], .notModelled "request packet does not decode")
+    | .ok v =>
       match ReqPacket.ofVal v with
       | none => ([], .notModelled "model: ill-typed request packet")
-      | some req =>
-        -- `rspPackage.IVersion = reqPackage.IVersion; rspPackage.IRequestId = reqPackage.IRequestId`
-        let rsp0 : RspPacket := { RspPacket.zero with iVersion := req.iVersion, iRequestId := req.iRequestId }
-        let (tr, err, rsp1) :=
-          if req.sFuncName ≠ ascii "tars_ping" then
-            runServer vs.postFilter none sreg (dispatch env iface req) rsp0
-          else ([], none, rsp0)
-        match err with
-        | some (.panic site) => (tr, .panicked site)
-        | some .notModelled => (tr, .notModelled "TUP / JSON request")
-        | _ =>
-          let rsp2 : RspPacket :=
-            match err with
-            | some e =>
-              let (iret, desc) := serverErr vs.zeroCode e.toGo
-              { rsp1 with iRet := iret, sResultDesc := desc }
-            | none => rsp1
-          -- `rspPackage.CPacketType = reqPackage.CPacketType`
-          let rsp3 := { rsp2 with cPacketType := req.cPacketType }
-          if rsp3.iVersion = (cpTUPVERSION : Int) then (tr, .notModelled "TUP response")
-          else
-            let frame := rsp2Byte rsp3
-            -- handleConn: `if cPacketType == basef.TARSONEWAY { return }`
-            if rsp3.cPacketType = (cpTARSONEWAY : Int) then (tr, .silent)
-            else (tr ++ [Ev.reply frame], .reply frame)
+      | some req => serverCore vs env sreg iface req
 
 /-! ## Client side -/
 
@@ -508,9 +520,9 @@ def clientRecv (reqId : Int) (pkg : Bytes) : Except String RspPacket :=
   if pkg.length < cpUnpackHeaderSkip then .error "recv panic: slice bounds"
   else
     let r := Reader.mk0 (pkg.drop cpUnpackHeaderSkip)
-    match decStruct packetEnv rspPacketName (freshStruct packetEnv rspPacketName) r with
-    | (.error _, _) => .error "decode packet error"
-    | (.ok v, _) =>
+    match (decStruct packetEnv rspPacketName (freshStruct packetEnv rspPacketName) r).1 with
+    | .error _ => .error "decode packet error"
+    | .ok v =>
       match RspPacket.ofVal v with
       | none => .error "model: ill-typed response packet"
       | some p =>
@@ -587,6 +599,46 @@ def optsMaps (opts : List (Option StrMap)) : Option StrMap × Option StrMap :=
   | [c, s] => (c, s)
   | _ => (none, none)
 
+/-- the generated proxy after `TarsInvoke` returned nil (not one-way): read the return value (tag 0)
+    and the out parameters (tag `k+1`) from `tarsResp.SBuffer` into `ret` and the caller's
+    variables, then copy the response context / status back into the caller's maps -/
+def proxyFinish (env : Env) (sig : Sig) (args : List Val) (opts : List (Option StrMap))
+    (resp : RspPacket) : Result :=
+  let (contextMap, statusMap) := optsMaps opts
+  let fs := rspFields sig
+  let olds := (sig.ret.map (zeroOf env)).toList ++ outVals sig.params args
+  let r := Reader.mk0 resp.sBuffer
+  match (decMembers env (argFuel env r) fs olds r).1 with
+  | .error (.panic site) => .panicked site
+  | .error e => .decodeFailed e
+  | .ok vals =>
+    let ret := if sig.ret.isSome then vals.head? else none
+    let outs := if sig.ret.isSome then vals.drop 1 else vals
+    match opts with
+    | [_] =>
+      match copyBack contextMap resp.context with
+      | .error site => .panicked site
+      | .ok c => .returned none ⟨ret, outs, c, statusMap⟩
+    | [_, _] =>
+      match copyBack contextMap resp.context with
+      | .error site => .panicked site
+      | .ok c =>
+        match copyBack statusMap resp.status with
+        | .error site => .panicked site
+        | .ok s => .returned none ⟨ret, outs, c, s⟩
+    | _ => .returned none ⟨ret, outs, contextMap, statusMap⟩
+
+/-- the request packet the proxy function hands to the transport: every parameter (tag `k+1`) in
+    the buffer, packet type 1 for the one-way variant, the maps of `opts` -/
+def proxyRequest (env : Env) (cfg : Cfg) (fn : Bytes) (sig : Sig) (oneway : Bool) (args : List Val)
+    (opts : List (Option StrMap)) : ReqPacket :=
+  mkRequest cfg (if oneway then cpProxyOnewayType else cpProxyNormalType) fn
+    (encMembers env (reqFields sig) args) (optsMaps opts).2 (optsMaps opts).1
+
+/-- what the caller holds if the call changes nothing: zero return value, its variables, its maps -/
+def view0 (env : Env) (sig : Sig) (args : List Val) (opts : List (Option StrMap)) : CallerView :=
+  ⟨sig.ret.map (zeroOf env), outVals sig.params args, (optsMaps opts).1, (optsMaps opts).2⟩
+
 /-- A call through the generated proxy function `<fn>WithContext` (`oneway = false`) or
     `<fn>OneWayWithContext` (`oneway = true`) for the interface function `(fn, sig)`:
     `args` are the values of ALL parameters (for an out parameter: what the caller's variable holds
@@ -595,46 +647,16 @@ def optsMaps (opts : List (Option StrMap)) : Option StrMap × Option StrMap :=
 def callWith (vs : Variants) (env : Env) (cfg : Cfg) (creg : ClientReg) (sreg : ServerReg)
     (iface : Iface) (fn : Bytes) (sig : Sig) (oneway : Bool) (args : List Val)
     (opts : List (Option StrMap)) : List Ev × Result :=
-  -- request buffer: every parameter with tag k+1
-  let buf := encMembers env (reqFields sig) args
-  let (contextMap, statusMap) := optsMaps opts
-  let cType : Int := if oneway then cpProxyOnewayType else cpProxyNormalType
-  let req := mkRequest cfg cType fn buf statusMap contextMap
-  let view0 : CallerView :=
-    ⟨sig.ret.map (zeroOf env), outVals sig.params args, contextMap, statusMap⟩
+  let req := proxyRequest env cfg fn sig oneway args opts
   -- TarsInvoke: filters around doInvoke; `msg.Resp` starts as the proxy's `tarsResp`
-  let (tr, res, resp) := runClient DoRes.nil creg (doInvoke vs env cfg sreg iface req) RspPacket.zero
-  match res with
-  | .err e => (tr, .returned (some e) view0)
-  | .timeout why => (tr, .timeout why)
-  | .notModelled what => (tr, .notModelled what)
-  | .nil =>
+  match runClient DoRes.nil creg (doInvoke vs env cfg sreg iface req) RspPacket.zero with
+  | (tr, .err e, _) => (tr, .returned (some e) (view0 env sig args opts))
+  | (tr, .timeout why, _) => (tr, .timeout why)
+  | (tr, .notModelled what, _) => (tr, .notModelled what)
+  | (tr, .nil, resp) =>
     -- `*resp = *msg.Resp`
-    if oneway then (tr, .returned none view0)
-    else
-      let fs := rspFields sig
-      let olds := (sig.ret.map (zeroOf env)).toList ++ outVals sig.params args
-      let r := Reader.mk0 resp.sBuffer
-      match decMembers env (argFuel env r) fs olds r with
-      | (.error (.panic site), _) => (tr, .panicked site)
-      | (.error e, _) => (tr, .decodeFailed e)
-      | (.ok vals, _) =>
-        let ret := if sig.ret.isSome then vals.head? else none
-        let outs := if sig.ret.isSome then vals.drop 1 else vals
-        -- copy-back of response context / status
-        match opts with
-        | [_] =>
-          match copyBack contextMap resp.context with
-          | .error site => (tr, .panicked site)
-          | .ok c => (tr, .returned none ⟨ret, outs, c, statusMap⟩)
-        | [_, _] =>
-          match copyBack contextMap resp.context with
-          | .error site => (tr, .panicked site)
-          | .ok c =>
-            match copyBack statusMap resp.status with
-            | .error site => (tr, .panicked site)
-            | .ok s => (tr, .returned none ⟨ret, outs, c, s⟩)
-        | _ => (tr, .returned none ⟨ret, outs, contextMap, statusMap⟩)
+    if oneway then (tr, .returned none (view0 env sig args opts))
+    else (tr, proxyFinish env sig args opts resp)
 
 /-- no filters registered on either side, current code -/
 def call (env : Env) (cfg : Cfg) (iface : Iface) (fn : Bytes) (sig : Sig) (oneway : Bool)
